@@ -236,6 +236,8 @@ def main():
             'file': relfile, 'function': fn, 'variant': variant,
             'inputs': dict(sorted(it.inputs.items())),
             'outputs': list(dict.fromkeys(it.outputs)),
+            'final_name': dict(it.final_name),
+            'last_version': {k: (k if v == 1 else '%s#%d' % (k, v)) for k, v in it.versions.items()},
             'bindings': [n for n, _ in it.prog],
             'kinds_of_bindings': {n: e.kind for n, e in it.prog},
             'calls': it.calls, 'decisions': {k: v for k, v in dec.items()},
